@@ -17,6 +17,7 @@ from __future__ import annotations
 
 import json
 import logging
+import re
 import queue
 import random
 import threading
@@ -53,6 +54,40 @@ COMPARE_HALTED = ("noop", "phase", "tx", "out", "draise")
 OBSERVABLE = ("phase", "w", "tx", "out", "draise")
 
 
+# ------------------------------------------------------------------ readings carried by the scripted lines
+FIXED_READINGS = {
+    "X:1.00 Y:2.00 Z:3.00 E:0.00 Count X:0 Y:0 Z:0": {"X": 1.0, "Y": 2.0, "Z": 3.0, "E": 0.0},
+    "<Idle|MPos:0.000,0.000,0.000|FS:0,0>": {"X": 0.0, "Y": 0.0, "Z": 0.0, "F": 0.0, "S": 0.0},
+    "T:20.0 /0.0 B:21.0 /0.0": {"T": 20.0, "B": 21.0},
+    " T:20.1 /0.0 @:0": {"T": 20.1},
+    "echo: T:19.8 E:0 W:?": {"T": 19.8, "E": 0.0},
+    "ok T:21.5 /0.0 B:20.1 /0.0": {"T": 21.5, "B": 20.1},
+    "ok T:22.0 /0.0": {"T": 22.0},
+}
+_DYN = [re.compile(r"^(?:ok )?T:(?P<T>-?\d+\.\d) /0\.0 B:(?P<B>-?\d+\.\d) /0\.0$"),
+        re.compile(r"^(?:ok )?X:(?P<X>-?\d+\.\d) Y:(?P<Y>-?\d+\.\d) Z:(?P<Z>-?\d+\.\d) E:(?P<E>-?\d+\.\d) Count X:\d+ Y:\d+ Z:\d+$")]
+
+
+def readings_of(text: str) -> dict:
+    """Readings a scripted line reports (first occurrence of a key within the line); lines are either from the
+    fixed vocabulary or built by `report_line` - the oracle never re-implements the writer's parser."""
+    if text in FIXED_READINGS:
+        return FIXED_READINGS[text]
+    for rx in _DYN:
+        m = rx.match(text)
+        if m:
+            return {k: float(v) for k, v in m.groupdict().items()}
+    return {}
+
+
+def report_line(rng, ok: bool) -> str:
+    pre = "ok " if ok else ""
+    if rng.random() < 0.6:
+        return f"{pre}T:{rng.randint(150, 2500) / 10:.1f} /0.0 B:{rng.randint(150, 1100) / 10:.1f} /0.0"
+    v = [rng.randint(-500, 500) / 10 for _ in range(4)]
+    return f"{pre}X:{v[0]:.1f} Y:{v[1]:.1f} Z:{v[2]:.1f} E:{v[3]:.1f} Count X:{rng.randint(0, 9)} Y:7 Z:8"
+
+
 # ------------------------------------------------------------------ generation
 def gen_stmt(rng, k):
     body = rng.choice([f"G1 X{k} Y{rng.randint(0, 99)} F{rng.choice([600, 1200])}", f"G0 Z{k}.5", f"M104 S{200 + k}",
@@ -67,9 +102,12 @@ def gen_script(rng, handshake: bool, allow_temp: bool, p_err: float):
     n_pre = rng.choice([0, 0, 0, 1, 1, 2, 3])
     pre, lines = "", []
     for _ in range(n_pre):
-        if allow_temp and rng.random() < 0.25:
+        if allow_temp and rng.random() < 0.3:
             pre += "t"
-            lines.append((rng.choice(TEMP), False))
+            line = report_line(rng, False) if rng.random() < 0.6 else rng.choice(TEMP)
+            if "T:" not in line:          # a position report is an ordinary status line for printcore
+                pre = pre[:-1] + "s"
+            lines.append((line, False))
         else:
             pre += "s"
             lines.append((rng.choice(STATUS), False))
@@ -78,11 +116,15 @@ def gen_script(rng, handshake: bool, allow_temp: bool, p_err: float):
         lines.append((rng.choice(BAD), True))
     else:
         term = "o"
-        lines.append((rng.choice(OK_PLAIN if handshake else OK_ANYCASE), False))
+        if not handshake and rng.random() < 0.35:
+            line = report_line(rng, True)      # the reply itself carries the reading (ok T:… / ok X:…)
+        else:
+            line = rng.choice(OK_PLAIN if handshake else OK_ANYCASE)
+        lines.append((line, False))
     return lines, (pre or "-"), term
 
 
-def gen_case(rng, kind="serial", flavour=None):
+def gen_case(rng, kind="serial", flavour=None, timeout=None):
     """A release script.  flavours: clean | backlog | connect-error | loss"""
     if flavour is None:
         flavour = rng.choices(["clean", "loss", "connect-error"], [0.8, 0.14, 0.06])[0]
@@ -127,7 +169,20 @@ def gen_case(rng, kind="serial", flavour=None):
             ops += [["D", "-", "o", [("ok", False)]], ["R"]]
     ops.append(["settle"])
     stmts = [gen_stmt(rng, k) for k in range(n)]
-    return {"kind": kind, "flavour": flavour, "n": n, "disc": rng.random() < 0.8, "stmts": stmts, "ops": ops}
+    case = {"kind": kind, "flavour": flavour, "n": n, "disc": rng.random() < 0.8, "stmts": stmts, "ops": ops}
+    if timeout:
+        # set_timeout() shorter than the device's latency (`Z` = the device takes its time before the next line)
+        case["timeout"] = timeout
+        seen, out = 0, []
+        for op in ops:
+            out.append(op)
+            if op[0] == "D":
+                seen += 1
+                if seen > probes + 2 and rng.random() < 0.7:
+                    out.append(["Z"])
+        case["ops"] = out
+        case["flavour"] = flavour + "+timeout"
+    return case
 
 
 def gen_gated_case(rng, hit: bool):
@@ -211,7 +266,8 @@ def exhaustive_cases():
 def model_lines(case):
     out = [f"cfg writes={case['n']} disc={1 if case['disc'] else 0} gated={1 if case.get('gated') else 0}"]
     for op in case["ops"]:
-        out.append(" ".join(op[:3]) if op[0] == "D" else " ".join(op[:2]) if op[0] == "X" else op[0])
+        out.append(" ".join(op[:3]) if op[0] == "D" else " ".join(op[:2]) if op[0] == "X" else
+                   "settle" if op[0] == "Z" else op[0])
     return out
 
 
@@ -238,7 +294,8 @@ def show(d: dict) -> str:
 def run_case(case, expected, timeout=1.5, settle=0.012):
     """Drive the real writer through `case`; `expected[i]` = model record (dict) after op i (wait hint and
     comparison).  Returns (impl projections, events, first disagreeing step or None, leftover threads)."""
-    S = sim.Session(case["kind"], case["stmts"], case["disc"], gated=bool(case.get("gated"))).start()
+    S = sim.Session(case["kind"], case["stmts"], case["disc"], gated=bool(case.get("gated")),
+                    timeout=case.get("timeout")).start()
     impl, bad_step = [], None
     try:
         for i, op in enumerate(case["ops"]):
@@ -263,11 +320,14 @@ def run_case(case, expected, timeout=1.5, settle=0.012):
             elif op[0] == "W":
                 S.permit()
                 did = True
+            elif op[0] == "Z":
+                time.sleep(1.6 * case.get("timeout", 0.05))
+                did = True
             else:
                 did = True
             noop = "0" if did else "1"
             snap = None
-            if did or op[0] == "settle":
+            if did or op[0] in ("settle", "Z"):
                 # after the first disagreement the script is still played to its end for the oracle; the model's
                 # prediction then only serves as a wait hint on the caller-visible part, with a short time-out
                 t_end = time.time() + (timeout if bad_step is None else 0.35)
@@ -413,6 +473,21 @@ def oracle(case, ev):
                         "connected": "connect() returned normally"}[c[0]]
                 fails.append(("error-dropped", f"the device reported {e[2]!r}; the caller's next call to complete did not "
                               f"raise it: {what}"))
+    # (2b) readings: when write() returns, get_parameter() gives, for every key, the value of the last report
+    # received that carries it (first occurrence within that report)
+    for i, e in enumerate(ev):
+        if e[0] == "ret" and len(e) > 3 and isinstance(e[3], dict) and (loss_pos is None or loss_pos > i):
+            expect, src = {}, {}
+            for x in ev[:i]:
+                if x[0] == "rel" and not x[4]:
+                    for key, val in readings_of(x[2]).items():
+                        expect[key], src[key] = val, x[2]
+            wrong = {key: (e[3].get(key), val) for key, val in expect.items() if e[3].get(key) != val}
+            if wrong:
+                key = sorted(wrong)[0]
+                fails.append(("stale-reading", f"after write({e[1]}) get_parameter({key!r}) = {wrong[key][0]!r}, but the last "
+                              f"report received for it was {src[key]!r} ({wrong[key][1]!r})"))
+                break
     # (3) a write whose acknowledgement was delivered must complete
     for k in calls:
         if k not in rets:
@@ -463,7 +538,7 @@ def absorbed_by(fl, listed):
 
 # ------------------------------------------------------------------ running a batch of release scripts
 def case_repr(case):
-    return {k: case[k] for k in ("kind", "flavour", "n", "disc", "gated", "stmts", "ops") if k in case}
+    return {k: case[k] for k in ("kind", "flavour", "n", "disc", "gated", "timeout", "stmts", "ops") if k in case}
 
 
 def model_records(cases):
@@ -501,7 +576,7 @@ def judge(R, case, ev, label, listed):
 
 def run_batch(R, cases, label, listed, compare=True):
     recs = model_records(cases)
-    n_dis = 0
+    n_dis = n_failing = 0
     for case, exp in zip(cases, recs):
         tries, timeout, settle = 0, 1.5, 0.012
         while True:
@@ -511,7 +586,7 @@ def run_batch(R, cases, label, listed, compare=True):
             tries += 1
             info = structural_info(case, ev)
             fails = [f for f in oracle(case, ev) if not absorbed_by(dict(tag=f[0], **info), listed)[0]]
-            if (bad is None and not fails) or tries >= (3 if n_dis < 4 else 1):
+            if (bad is None and not fails) or tries >= (3 if n_dis < 4 and n_failing < 4 else 1):
                 break
             timeout, settle = timeout * 1.5, settle * 2  # real threads: retry before it counts
         R.count(label, "kind:" + case["kind"], "flavour:" + case["flavour"], f"writes:{case['n']}",
@@ -529,6 +604,8 @@ def run_batch(R, cases, label, listed, compare=True):
             n_dis += 1
             R.disagree("directwrite-release-script", case_repr(case), show(impl[bad]), show(project(exp[bad + 1])),
                        step=f"op {bad}: {case['ops'][bad][:3]}")
+        if fails:
+            n_failing += 1
         judge(R, case, ev, label, listed)
         if n_dis >= 6 and len(fresh_failures(R)) >= 3:
             R.notes.append(f"{label}: stopped after {n_dis} disagreeing cases (enough to decide)")
@@ -779,6 +856,7 @@ def run(R: core.Run):
         "single caller thread (connect; writes; disconnect), as GCodeBuilder uses a writer; a second thread only in sub-harness C",
         "the device answers every received command with exactly one terminal reply (ok... or error.../alarm.../!!...), "
         "may push surplus ok / unsolicited error lines at any time (scripted as separate `X` lines), "
+        "reports readings only in the scripted formats (T:/B: temperature and X/Y/Z/E position reports, fixed vocabulary), "
         "and never sends greetings ('start', 'Grbl'), 'Resend:'/'rs' or 'DEBUG_' lines during a session",
         "line-number mode (no 'Grbl' greeting); connect probes and resets are acknowledged with a lowercase 'ok...'",
         "after a connection loss both reads and writes on the port fail (fake port); on a socket the loss is the last event",
@@ -806,6 +884,7 @@ def run(R: core.Run):
     cases += [gen_case(R.rng, flavour="backlog") for _ in range(n_back)]
     cases += [gen_gated_case(R.rng, hit=False) for _ in range(n_gated)]
     cases += [gen_gated_case(R.rng, hit=True) for _ in range(n_hit)]
+    cases += [gen_case(R.rng, flavour="clean", timeout=0.05) for _ in range(max(3, n // 12))]
     R.rng.shuffle(cases)
     run_batch(R, corpus + cases, "serial", listed)
     sock_cases = []
@@ -832,6 +911,7 @@ def run(R: core.Run):
         R.search_batches += 1
         extra = [gen_case(R.rng, flavour=f) for f in ["clean"] * R.n(10, 40) + ["loss"] * R.n(3, 10)]
         extra += [gen_gated_case(R.rng, hit=False) for _ in range(R.n(10, 40))]
+        extra += [gen_case(R.rng, flavour="clean", timeout=0.05) for _ in range(R.n(4, 12))]
         run_batch(R, extra, "search", listed, compare=False)
         sub_delay(R, listed)
     logging.disable(logging.NOTSET)
